@@ -31,7 +31,7 @@ CLAIMED = {
   "ref": "DESIGN.md 5-C03"},
  "C13": {
   "text": "Partial (key layout, scan positioning, per-entry filters): the per-entry code of get_cells / get_cells_capacity / get_transactions (both branches), lifted out of its closures, reports an entry iff every given filter admits it, with the entry's own fields, and moves the cursor exactly then; get_cells_capacity adds exactly the capacity of the cells get_cells would report. Also: the real encoder From<Key> for Vec<u8> / append_key / Key::into_vec produces exactly prefix | script raw data | number be64 | tx_index be32 | io_index be32 [| io_type] for every key; the real build_query_options returns exactly (prefix, from key, direction, skip) as the property's mechanism prescribes for every search key, order and cursor.",
-  "note": "Pagination as a whole (iterator chains, skip, limit, cursor across pages, order reversal, grouping) is NOT under contract.",
+  "note": "The grouping step of get_transactions (merge an entry into the last group / open a new group) is under contract too. Pagination as a whole (iterator chains, skip, limit, cursor across pages, order reversal) is NOT under contract.",
   "ref": "DESIGN.md 5-C13"},
  "C04": {
   "text": "Partial: contract on the real text of Storage::rollback_to_block (for every store content the committed batch is exactly: per registered script whose progress reached the fork point, per history entry of exactly that script in a block >= to_number, newest first: an output entry deletes the cell it created and the entry, an input entry re-creates the spent cell under its CREATING block/tx/output index and deletes the entry; script progress := to_number; filter progress := to_number - 1) and contracts on the real text of commit_prove_state (fork-point search via stored last-N headers, rollback target, long-fork result) and the callers' gates: the index is rolled back only to <= fork point + 1 where the fork point is the highest reorg header equal to a remembered last-N header (or to block 1 when the previous tip is block 1); Ok(false) is returned only if no reorg header is remembered and then the stored tip writer is not reached with reorg evidence; the stored tip moves only to a strictly heavier trusted state.",
